@@ -155,6 +155,9 @@ pub struct Case<O> {
     pub single: bool,
     pub datasets: Vec<DatasetSpec>,
     pub ops: Vec<Op<O>>,
+    /// also drive the shipped HTTP client (over the simulated transport) through the same history
+    #[serde(default)]
+    pub http_twin: bool,
 }
 
 fn gen_ops_common(rng: &mut Rng, sched: &mut Sched, bts: &[u64], n_datasets: &[String], w: &[u32; 6], bogus_p: f64) -> (u8, Option<u64>, usize, String) {
@@ -192,6 +195,58 @@ fn edge_f64(rng: &mut Rng, base: f64) -> f64 {
     }
 }
 
+/// The answer of a client (TestClient, or the HTTP client over the simulated transport) to `op`, next to the
+/// in-process twin's answer to the same op, both as canonical text.
+macro_rules! twin_answers_u {
+    ($me:expr, $client:expr, $op:expr) => {{
+        let op = $op;
+        let fmt_trades = |t: &[rotala::exchange::uist_v1::Trade]| t.iter().map(crate::e1u_model::fmt_trade).collect::<Vec<_>>().join(",");
+        let fmt_orders = |o: &[rotala::exchange::uist_v1::Order]| o.iter().map(crate::e1u_model::fmt_order).collect::<Vec<_>>().join(",");
+        let (mine, theirs): (String, String) = match op {
+            Op::Init { dataset, .. } => (
+                format!("{:?}", $me.last_direct.clone()),
+                format!("{:?}", block_on($client.init(dataset.clone())).map(|r| r.backtest_id).map_err(|_| 400)),
+            ),
+            Op::Insert { bt, order, .. } => {
+                let body = serde_json::to_string(&crate::server::UInsertReq { order: order.to_sut() }).unwrap();
+                let decoded: crate::server::UInsertReq = serde_json::from_str(&body).unwrap();
+                (format!("{:?}", $me.last_direct.clone()), format!("{:?}", block_on($client.insert_order(decoded.order, *bt)).map(|_| 0u64).map_err(|_| 400)))
+            }
+            Op::Delete { bt, id, .. } => (format!("{:?}", $me.last_direct.clone()), format!("{:?}", block_on($client.delete_order(*id, *bt)).map(|_| 0u64).map_err(|_| 400))),
+            Op::Tick { bt, .. } => (
+                $me.last_direct_txt.clone(),
+                match block_on($client.tick(*bt)) {
+                    Ok(r) => format!("has_next={} trades=[{}] admitted=[{}]", r.has_next, fmt_trades(&r.executed_trades), fmt_orders(&r.inserted_orders)),
+                    Err(_) => "rejected".to_string(),
+                },
+            ),
+            Op::Fetch { bt, .. } => (
+                $me.last_direct_txt.clone(),
+                match block_on($client.fetch_quotes(*bt)) {
+                    Ok(r) => crate::e1u::canon_quotes(&r.quotes),
+                    Err(_) => "rejected".to_string(),
+                },
+            ),
+            Op::Info { bt, .. } => (
+                $me.last_direct_txt.clone(),
+                match block_on($client.info(*bt)) {
+                    Ok(r) => format!("{} {}", r.version, r.dataset),
+                    Err(_) => "rejected".to_string(),
+                },
+            ),
+            Op::Now { bt, .. } => (
+                $me.last_direct_txt.clone(),
+                match block_on($client.now(*bt)) {
+                    Ok(r) => format!("{} {}", r.now, r.has_next),
+                    Err(_) => "rejected".to_string(),
+                },
+            ),
+        };
+
+        (mine, theirs)
+    }};
+}
+
 // ================================================================================================
 // Uist twin
 // ================================================================================================
@@ -205,6 +260,10 @@ struct TwinU {
     /// third twin: the shipped in-process client `TestClient` (it owns its AppState privately, so only
     /// its answers can be compared; it can only be built with `single`)
     tc: Option<rotala::http::uist::uistv1_client::TestClient>,
+    /// fourth twin: the shipped HTTP client over the simulated transport (only when every dataset name is
+    /// one the client can put into a URL as it stands: it does not percent-encode)
+    #[cfg(shadow_http)]
+    hc: Option<HttpTwinU>,
     bts: Vec<u64>,
     next_tag: u64,
     /// the direct twin's answer to the current op: Ok(id or 0) / Err(400), and a canonical text
@@ -240,6 +299,133 @@ fn build_u(single: bool, datasets: &[DatasetSpec], path: Path) -> UistServer {
     UistServer::new(state, path)
 }
 
+/// Equality of two canonical texts up to 1e-12 relative on the decimal numbers in them.
+fn texts_close(a: &str, b: &str) -> bool {
+    fn tokens(s: &str) -> Vec<(bool, &str)> {
+        let bytes = s.as_bytes();
+        let mut out = Vec::new();
+        let mut i = 0;
+        let mut text_start = 0;
+        while i < bytes.len() {
+            let c = bytes[i];
+            let starts_number = c.is_ascii_digit() || (c == b'-' && i + 1 < bytes.len() && bytes[i + 1].is_ascii_digit() && (i == 0 || !bytes[i - 1].is_ascii_alphanumeric()));
+            if starts_number && (i == 0 || !(bytes[i - 1].is_ascii_alphabetic() || bytes[i - 1] == b'_')) {
+                let start = i;
+                i += 1;
+                while i < bytes.len() && (bytes[i].is_ascii_digit() || bytes[i] == b'.' || bytes[i] == b'e' || bytes[i] == b'E' || ((bytes[i] == b'-' || bytes[i] == b'+') && (bytes[i - 1] == b'e' || bytes[i - 1] == b'E'))) {
+                    i += 1;
+                }
+                if text_start < start {
+                    out.push((false, &s[text_start..start]));
+                }
+                out.push((true, &s[start..i]));
+                text_start = i;
+            } else {
+                i += 1;
+            }
+        }
+        if text_start < s.len() {
+            out.push((false, &s[text_start..]));
+        }
+        out
+    }
+    if a == b {
+        return true;
+    }
+    let (ta, tb) = (tokens(a), tokens(b));
+    ta.len() == tb.len()
+        && ta.iter().zip(tb.iter()).all(|(x, y)| {
+            if x.0 != y.0 {
+                return false;
+            }
+            if !x.0 {
+                return x.1 == y.1;
+            }
+            match (x.1.parse::<f64>(), y.1.parse::<f64>()) {
+                (Ok(p), Ok(q)) => p == q || (p - q).abs() <= 1e-12 * p.abs().max(q.abs()),
+                _ => x.1 == y.1,
+            }
+        })
+}
+
+/// The state, the real handlers (shadow copy) as an in-memory service, and the real HTTP client talking to
+/// them through the simulated transport.
+#[cfg(shadow_http)]
+struct HttpTwinU {
+    client: crate::threads::shadow_uist::uistv1_client::Client,
+    data: actix_web::web::Data<crate::threads::shim::Mutex<crate::threads::shadow_uist::AppState>>,
+}
+
+#[cfg(shadow_http)]
+impl Drop for HttpTwinU {
+    fn drop(&mut self) {
+        // the service must not outlive the run (it must not be destroyed by thread-local teardown)
+        crate::simhttp::uninstall();
+    }
+}
+
+#[cfg(shadow_http)]
+fn url_safe(name: &str) -> bool {
+    url::Url::parse(&format!("http://sim/init/{name}")).map_or(false, |u| u.path() == format!("/init/{name}") && u.query().is_none() && u.fragment().is_none())
+}
+
+#[cfg(shadow_http)]
+impl HttpTwinU {
+    fn new(single: bool, datasets: &[DatasetSpec]) -> Option<Self> {
+        use crate::threads::shadow_uist as su;
+        crate::simhttp::uninstall();
+        let _ = crate::simhttp::take_log();
+        if !datasets.iter().all(|d| url_safe(&d.name)) {
+            return None;
+        }
+        let state = if single {
+            su::AppState::single(&datasets[0].name, datasets[0].build())
+        } else {
+            let mut m = HashMap::new();
+            for d in datasets {
+                m.insert(d.name.clone(), d.build());
+            }
+            su::AppState::create(&mut m)
+        };
+        let mut t = HttpTwinU { client: su::uistv1_client::Client::new("http://sim".to_string()), data: actix_web::web::Data::new(crate::threads::shim::Mutex::new(state)) };
+        // one service per run; it stays installed for this thread until the next run installs its own
+        t.install();
+        Some(t)
+    }
+
+    /// Route the calling thread's simulated HTTP requests to the real handlers over this twin's state.
+    fn install(&mut self) {
+        use crate::exec::block_on;
+        use crate::threads::shadow_uist as su;
+        use actix_web::test::{self, TestRequest};
+        let app = block_on(test::init_service(
+            actix_web::App::new()
+                .app_data(self.data.clone())
+                .service(su::uistv1_server::info)
+                .service(su::uistv1_server::init)
+                .service(su::uistv1_server::fetch_quotes)
+                .service(su::uistv1_server::tick)
+                .service(su::uistv1_server::insert_order)
+                .service(su::uistv1_server::delete_order)
+                .service(su::uistv1_server::now),
+        ));
+        crate::simhttp::install(Box::new(move |method, target, body| {
+            let mut req = if method == "POST" { TestRequest::post() } else { TestRequest::get() }.uri(target);
+            if let Some(b) = body {
+                req = req.insert_header(("content-type", "application/json")).set_payload(b);
+            }
+            match block_on(test::try_call_service(&app, req.to_request())) {
+                Ok(resp) => {
+                    let status = resp.status().as_u16();
+                    let body = block_on(test::read_body(resp));
+                    (status, body.to_vec())
+                }
+                Err(e) => (e.as_response_error().status_code().as_u16(), format!("{e}").into_bytes()),
+            }
+        }));
+    }
+}
+
 impl TwinU {
     fn new(case: &Case<OrderSpec>, focus: &str, keep_text: bool) -> Self {
         TwinU {
@@ -247,6 +433,8 @@ impl TwinU {
             direct: build_u(case.single, &case.datasets, Path::Direct),
             json: build_u(case.single, &case.datasets, Path::Json),
             tc: if case.single { Some(rotala::http::uist::uistv1_client::TestClient::single(&case.datasets[0].name, case.datasets[0].build())) } else { None },
+            #[cfg(shadow_http)]
+            hc: if case.http_twin { HttpTwinU::new(case.single, &case.datasets) } else { None },
             bts: if case.single { vec![0] } else { vec![] },
             next_tag: 1,
             last_direct: Ok(0),
@@ -258,53 +446,36 @@ impl TwinU {
     fn test_client_twin(&mut self, op: &Op<OrderSpec>) {
         use crate::exec::block_on;
         use rotala::http::uist::uistv1_client::UistClient;
-        let Some(tc) = self.tc.as_mut() else { return };
-        let fmt_trades = |t: &[rotala::exchange::uist_v1::Trade]| t.iter().map(crate::e1u_model::fmt_trade).collect::<Vec<_>>().join(",");
-        let fmt_orders = |o: &[rotala::exchange::uist_v1::Order]| o.iter().map(crate::e1u_model::fmt_order).collect::<Vec<_>>().join(",");
-        // replay on a scratch copy of the direct twin is not possible (it already executed the op), so the
-        // TestClient answer is compared with what the direct twin answered for this very op: both are
-        // recomputed here from their own state, which went through the same history
-        let (mine, theirs): (String, String) = match op {
-            Op::Init { dataset, .. } => (
-                format!("{:?}", self.last_direct.clone()),
-                format!("{:?}", block_on(tc.init(dataset.clone())).map(|r| r.backtest_id).map_err(|_| 400)),
-            ),
-            Op::Insert { bt, order, .. } => {
-                let body = serde_json::to_string(&crate::server::UInsertReq { order: order.to_sut() }).unwrap();
-                let decoded: crate::server::UInsertReq = serde_json::from_str(&body).unwrap();
-                (format!("{:?}", self.last_direct.clone()), format!("{:?}", block_on(tc.insert_order(decoded.order, *bt)).map(|_| 0u64).map_err(|_| 400)))
-            }
-            Op::Delete { bt, id, .. } => (format!("{:?}", self.last_direct.clone()), format!("{:?}", block_on(tc.delete_order(*id, *bt)).map(|_| 0u64).map_err(|_| 400))),
-            Op::Tick { bt, .. } => (
-                self.last_direct_txt.clone(),
-                match block_on(tc.tick(*bt)) {
-                    Ok(r) => format!("has_next={} trades=[{}] admitted=[{}]", r.has_next, fmt_trades(&r.executed_trades), fmt_orders(&r.inserted_orders)),
-                    Err(_) => "rejected".to_string(),
-                },
-            ),
-            Op::Fetch { bt, .. } => (
-                self.last_direct_txt.clone(),
-                match block_on(tc.fetch_quotes(*bt)) {
-                    Ok(r) => crate::e1u::canon_quotes(&r.quotes),
-                    Err(_) => "rejected".to_string(),
-                },
-            ),
-            Op::Info { bt, .. } => (
-                self.last_direct_txt.clone(),
-                match block_on(tc.info(*bt)) {
-                    Ok(r) => format!("{} {}", r.version, r.dataset),
-                    Err(_) => "rejected".to_string(),
-                },
-            ),
-            Op::Now { bt, .. } => (
-                self.last_direct_txt.clone(),
-                match block_on(tc.now(*bt)) {
-                    Ok(r) => format!("{} {}", r.now, r.has_next),
-                    Err(_) => "rejected".to_string(),
-                },
-            ),
-        };
+        if self.tc.is_none() {
+            return;
+        }
+        let mut tc = self.tc.take().unwrap();
+        let (mine, theirs) = twin_answers_u!(self, tc, op);
+        self.tc = Some(tc);
         self.ctx.bump("probe_testclient_twin_requests");
+        self.judge_twin("TestClient", "testclient-diverges", op, mine, theirs);
+    }
+
+    /// The same request through the shipped HTTP client `uistv1_client::Client` (shadow copy: its reqwest
+    /// transport is the simulated one) against the real handlers over its own state.
+    #[cfg(shadow_http)]
+    fn http_client_twin(&mut self, op: &Op<OrderSpec>) {
+        use crate::exec::block_on;
+        use crate::threads::shadow_uist::uistv1_client::UistClient;
+        if self.hc.is_none() {
+            return;
+        }
+        let mut hc = self.hc.take().unwrap();
+        let (mine, theirs) = twin_answers_u!(self, hc.client, op);
+        for l in crate::simhttp::take_log() {
+            ev!(self.ctx, "http-client {l}");
+        }
+        self.hc = Some(hc);
+        self.ctx.bump("probe_http_client_twin_requests");
+        self.judge_twin("the HTTP client (uistv1_client::Client over the real handlers)", "http-client-diverges", op, mine, theirs);
+    }
+
+    fn judge_twin(&mut self, who: &str, rule: &str, op: &Op<OrderSpec>, mine: String, theirs: String) {
         let what = match op {
             Op::Init { .. } => "init",
             Op::Insert { .. } => "insert_order",
@@ -314,10 +485,12 @@ impl TwinU {
             Op::Info { .. } => "info",
             Op::Now { .. } => "now",
         };
-        if mine != theirs {
-            let msg = format!("TestClient answered {what} differently from the in-process AppState after the same history: AppState {mine}, TestClient {theirs} (op {:?})", op);
-            self.ctx.fail("C20", "testclient-diverges", what, msg.clone());
-            self.ctx.fail("C08", "testclient-diverges", what, msg);
+        // through JSON text floats may move in the last place: C20 allows 1e-12 relative
+        let same = if rule == "http-client-diverges" { texts_close(&mine, &theirs) } else { mine == theirs };
+        if !same {
+            let msg = format!("{who} answered {what} differently from the in-process AppState after the same history: AppState {mine}, {who} {theirs} (op {:?})", op);
+            self.ctx.fail("C20", rule, what, msg.clone());
+            self.ctx.fail("C08", rule, what, msg);
         }
     }
 
@@ -463,6 +636,8 @@ impl TwinU {
             }
         }
         self.test_client_twin(op);
+        #[cfg(shadow_http)]
+        self.http_client_twin(op);
         // both servers must be in the same state after every request (rejected ones change nothing)
         let (a, b) = (digest_u(&self.direct), digest_u(&self.json));
         rule!(self.ctx, "C20", "state-diverged", "uist", a == b, "after {:?} the state behind the HTTP service differs from the in-process twin", op);
@@ -541,7 +716,7 @@ impl Engine for E2U {
         let n_clients = c.range(1, 4) as usize;
         let mut sched = Sched::new(&mut root.fork("sched"), n_clients);
         let mut rng = root.fork("ops");
-        let mut case = Case { single, datasets: datasets.clone(), ops: Vec::new() };
+        let mut case = Case { single, datasets: datasets.clone(), ops: Vec::new(), http_twin: root.fork("http-twin").one_in(3) };
         let mut tw = TwinU::new(&case, focus, keep_text);
         tw.ctx.add("f1_quote_gaps_in_world", st.gaps);
         let ds_names: Vec<String> = datasets.iter().map(|d| d.name.clone()).collect();
@@ -873,7 +1048,7 @@ impl Engine for E2J {
         let n_clients = c.range(1, 4) as usize;
         let mut sched = Sched::new(&mut root.fork("sched"), n_clients);
         let mut rng = root.fork("ops");
-        let mut case = Case { single, datasets: datasets.clone(), ops: Vec::new() };
+        let mut case = Case { single, datasets: datasets.clone(), ops: Vec::new(), http_twin: root.fork("http-twin").one_in(3) };
         let mut tw = TwinJ::new(&case, focus, keep_text);
         tw.ctx.add("f1_quote_gaps_in_world", st.gaps);
         let ds_names: Vec<String> = datasets.iter().map(|d| d.name.clone()).collect();
